@@ -4,6 +4,7 @@ import sys, os, json, shutil, subprocess
 name, wt, prop, det = sys.argv[1], sys.argv[2], sys.argv[3], json.loads(sys.argv[4])
 d = os.path.join('/verif/seeded', name)
 os.makedirs(d, exist_ok=True)
+subprocess.run(['git', 'add', '-N', '--', 'logos-codegen', 'src', 'logos-derive', 'logos-cli'], cwd=wt, capture_output=True)
 patch = subprocess.run(['git', 'diff', '--', 'logos-codegen', 'src', 'logos-derive', 'logos-cli'], cwd=wt, capture_output=True, text=True).stdout
 open(os.path.join(d, 'patch.diff'), 'w').write(patch)
 shutil.copyfile(os.path.join(wt, 'tests/tests/seeded_demo.rs'), os.path.join(d, 'seeded_demo.rs'))
